@@ -14,16 +14,54 @@ RULE = ("The program-pair generator of the other checks (C and C++ libraries wit
         "4/5, shared/relocatable) feeding the tools rebuilt with clang -fsanitize=address,undefined "
         "(-fno-sanitize-recover=undefined, leak detection off): abidw (default, --load-all-types --annotate), abilint on the "
         "ABIXML, abidiff ELF/ELF, ELF/ABIXML, ABIXML/ABIXML in default, --leaf-changes-only, --harmless --redundant modes, "
-        "abidw --abidiff, abipkgdiff on two directories. Oracle: no AddressSanitizer / UndefinedBehaviorSanitizer report and "
+        "abidw --abidiff, abipkgdiff on two directories; plus, per case, a sweep of three single mutations (member inserted / "
+        "removed / reordered / retyped, array bound changed, array dimension added or dropped) of a struct that has a member "
+        "of every shape, each compared with the unmutated build in both orders. Oracle: no AddressSanitizer / UndefinedBehaviorSanitizer report and "
         "no fatal signal in any run. Non-trivial = C++ model or a model with at least 4 named types; distinct by SHA-1 of "
         "(case, command).")
 ASSUMPTIONS = ["elfutils, libxml2 and libstdc++ are not instrumented: errors inside them are only seen when they fault"]
 
 
+SWEEP_KINDS = ["insert_member", "remove_member", "reorder_members", "member_type", "array_bound", "array_bound", "array_bound"]
+
+
+def kitchen_sink(m):
+    """The model plus one struct that has a member of every shape (two-dimensional and plain arrays, bit-fields, an anonymous
+    union, a function pointer, pointers) and a function using it: the subject of the per-case mutation sweep."""
+    import copy
+    m = copy.deepcopy(m)
+    B = lambda n: ["b", n]
+    m["types"].append({"kind": "struct", "name": "ks0", "members": [
+        {"name": "a", "type": B("int"), "bits": None},
+        {"name": "tag", "type": ["a", ["a", B("char"), 2], 8], "bits": None},
+        {"name": "b", "type": B("unsigned int"), "bits": 3},
+        {"name": "c", "type": B("unsigned int"), "bits": 5},
+        {"anon": "union", "members": [{"name": "ux", "type": B("int"), "bits": None}, {"name": "uy", "type": B("float"), "bits": None}]},
+        {"name": "fp", "type": ["p", ["fn", B("int"), [B("long")], False]], "bits": None},
+        {"name": "arr", "type": ["a", B("long"), 4], "bits": None},
+        {"name": "grid", "type": ["a", ["a", ["p", B("char")], 3], 2], "bits": None},
+        {"name": "next", "type": ["p", ["n", "ks0"]], "bits": None}]})
+    f = {"name": "use_ks0", "ret": ["b", "int"], "params": [{"name": "p", "type": ["p", ["n", "ks0"]]}], "variadic": False, "tu": 0,
+         "body": 1}
+    if m["lang"] == "cxx":
+        f["extern_c"] = False
+    m["funcs"].append(f)
+    return m
+
+
 @st.composite
 def strategy_(draw, tier):
+    from ..gen import mutate as MU
     c = draw(multi.multi_pair(tier, lo=0, hi=4))
     c["cfg"]["kind"] = S._pick(draw, ["shared", "shared", "shared", "rel"])
+    # mutation sweep: three single mutations of the kitchen-sink struct, each compared with the unmutated build
+    base = kitchen_sink(c["model"])
+    c["sweep_base"] = base
+    c["sweep"] = []
+    for _ in range(3):
+        m2, info = MU.breaking(draw, base, only=[S._pick(draw, SWEEP_KINDS)], type_names=["ks0"])
+        if m2 is not None:
+            c["sweep"].append({"mutant": m2, "info": info})
     return c
 
 
@@ -68,4 +106,28 @@ def run_case(case, cx):
                 continue
             cx.violation("sanitizer:" + key, dict(r.brief(), files=M.render_files(m)))
             return
-    cx.sample({"changes": [i["kind"] for i in case["infos"]], "cfg": cfg, "commands": [[t] + [a for a in args if a.startswith("--")] for t, args in cmds]})
+    # mutation sweep on the kitchen-sink struct: abidiff (both orders, default and leaf mode alternating) only
+    if case.get("sweep"):
+        try:
+            sb = cbuild.compile_model(case["sweep_base"], cfg, d + "/sweep/base")
+        except cbuild.CompileError:
+            sb = None
+        for k, sw in enumerate(case["sweep"] if sb else []):
+            try:
+                sm = cbuild.compile_model(sw["mutant"], cfg, d + "/sweep/m%d" % k)
+            except cbuild.CompileError:
+                continue
+            cx.cls("sweep=" + sw["info"]["kind"] + (":" + sw["info"]["how"] if sw["info"].get("how") else ""))
+            for a, b, extra in ((sb, sm, []), (sm, sb, ["--leaf-changes-only"])):
+                r = cbuild.tool("abidiff", nd + extra + [a, b], variant="asan", timeout=300)
+                cx.evaluations += 1
+                cx.nt({"case": M.sha(case), "sweep": k, "order": a == sb})
+                err = r.etext()
+                if not r.timeout and (cbuild.crashed(r) or "ERROR: AddressSanitizer" in err or "runtime error:" in err):
+                    key = cbuild.crash_key(r)
+                    if key.startswith("assert:"):
+                        cx.extra["assertion(not counted here):" + key] += 1
+                        continue
+                    cx.violation("sanitizer:" + key, dict(r.brief(), mutation=sw["info"], files=M.render_files(sw["mutant"])))
+                    return
+    cx.sample({"changes": [i["kind"] for i in case["infos"]], "cfg": cfg, "sweep": [x["info"]["kind"] + ":" + str(x["info"].get("how", "")) for x in case.get("sweep", [])], "commands": [[t] + [a for a in args if a.startswith("--")] for t, args in cmds]})
